@@ -21,7 +21,8 @@ import sys
 from concurrent.futures import ThreadPoolExecutor
 
 PY = sys.executable
-TRACE = 'openat,open,creat,rename,renameat,renameat2,unlink,unlinkat,rmdir,mkdir,mkdirat,truncate,ftruncate,link,linkat,symlink,symlinkat,chmod,fchmodat'
+TRACE = ('openat,open,creat,rename,renameat,renameat2,unlink,unlinkat,rmdir,mkdir,mkdirat,truncate,ftruncate,link,linkat,'
+         'symlink,symlinkat,chmod,fchmodat,fchmod,utimensat,utime,utimes,futimesat,chown,lchown,fchownat,setxattr,lsetxattr,mknod,mknodat')
 TEXT_NAMES = {'settings.yaml', 'merchants.rules', 'views.rules', 'merchant_categories.csv',
               'merchant_categories.csv.bak', '.gitignore', '.tally-schema'}
 
@@ -126,9 +127,16 @@ def parse_trace(path, cwd):
         elif name in ('link', 'linkat', 'symlink', 'symlinkat'):
             if strs:
                 ops.append(('link', ab(strs[-1]), '', ok))
-        elif name in ('chmod', 'fchmodat'):
+        elif name in ('chmod', 'fchmodat', 'chown', 'lchown', 'fchownat', 'setxattr', 'lsetxattr'):
             if strs:
                 ops.append(('chmod', ab(strs[0]), '', ok))
+        elif name == 'fchmod':
+            ops.append(('chmod', 'FD:' + args.split(',')[0], '', ok))
+        elif name in ('utimensat', 'utime', 'utimes', 'futimesat'):
+            ops.append(('utime', ab(strs[0]) if strs else 'FD:' + args.split(',')[0], '', ok))
+        elif name in ('mknod', 'mknodat'):
+            if strs:
+                ops.append(('create', ab(strs[0]), '', ok))
     return ops
 
 
